@@ -124,13 +124,18 @@ pub fn set_error_detail(enabled: bool) {
 #[derive(Debug)]
 struct CallLimitTracker {
     current_call_limit: Option<(usize, usize)>,
+    /// Set once a call has been refused because the limit was reached.
+    refused: bool,
 }
 
 impl Default for CallLimitTracker {
     fn default() -> Self {
         let limit = CALL_LIMIT.load(Ordering::Relaxed);
         let current_call_limit = if limit > 0 { Some((0, limit)) } else { None };
-        Self { current_call_limit }
+        Self {
+            current_call_limit,
+            refused: false,
+        }
     }
 }
 
@@ -511,11 +516,13 @@ where
     let state = ParserState::new(input);
 
     match f(state) {
-        Ok(state) => {
+        // A call refused because of the call limit may have been absorbed by `optional`,
+        // `repeat` or a negative `lookahead`; such a result must not be passed off as a success.
+        Ok(state) if !state.call_tracker.refused => {
             let len = state.queue.len();
             Ok(new(Rc::new(state.queue), input, None, 0, len))
         }
-        Err(mut state) => {
+        Ok(mut state) | Err(mut state) => {
             let variant = if state.reached_call_limit() {
                 ErrorVariant::CustomError {
                     message: "call limit reached".to_owned(),
@@ -624,6 +631,7 @@ impl<'i, R: RuleType> ParserState<'i, R> {
     #[inline]
     fn inc_call_check_limit(mut self: Box<Self>) -> ParseResult<Box<Self>> {
         if self.call_tracker.limit_reached() {
+            self.call_tracker.refused = true;
             return Err(self);
         }
         self.call_tracker.increment_depth();
